@@ -27,6 +27,7 @@ type Hello struct {
 	MinVer uint16
 	MaxVer uint16
 	Mutate func(*utls.ClientHelloSpec)
+	Manual bool // bytes written by the client are staged; the harness delivers them (Raw.Deliver)
 }
 
 // recConn records everything the client writes (ground truth for "the ClientHello the client sent").
@@ -77,6 +78,9 @@ func (s *Stack) Connect(name string, addr net.Addr, h Hello) *Client {
 		return c
 	}
 	c.Raw, c.Srv = cl, sv
+	if h.Manual {
+		cl.SetManual(true)
+	}
 	c.rec = &recConn{Conn: cl}
 	s.clients = append(s.clients, c)
 	ctx, cancel := context.WithCancel(context.Background())
@@ -200,9 +204,20 @@ func (c *Client) FirstRecord() []byte {
 
 // Write sends application bytes over TLS.
 func (c *Client) Write(b []byte) error {
+	// never enter TLS Write before the handshake has finished: it would call Handshake and wait on a real
+	// mutex held by the handshake goroutine (not a durable block -> synctest.Wait would hang)
+	c.mu.Lock()
+	ok := c.TLS != nil && c.hsDone && c.hsErr == nil && !c.closed
+	c.mu.Unlock()
+	if !ok {
+		return ErrNotConnected
+	}
 	_, err := c.TLS.Write(b)
 	return err
 }
+
+// ErrNotConnected is returned by Write when the TLS handshake has not completed (or the client was closed).
+var ErrNotConnected = fmt.Errorf("client not connected")
 
 // Close closes the client's connection (TLS close_notify, then the transport).
 func (c *Client) Close() {
@@ -436,4 +451,22 @@ func asciiLower(s string) string {
 		}
 	}
 	return string(b)
+}
+
+// DialRaw opens a connection without any TLS client: the harness writes raw bytes with c.Raw.Write.
+func (s *Stack) DialRaw(name string, addr net.Addr) *Client {
+	if addr == nil {
+		s.nextPort++
+		addr = memnet.TCPAddr("10.0.0.9", s.nextPort)
+	}
+	cl, sv, err := s.Ln.Dial(addr)
+	c := &Client{Name: name}
+	if err != nil {
+		c.hsDone, c.hsErr = true, err
+		return c
+	}
+	c.Raw, c.Srv = cl, sv
+	c.rec = &recConn{Conn: cl}
+	s.clients = append(s.clients, c)
+	return c
 }
